@@ -16,6 +16,9 @@ type CV struct {
 	T     types.Type
 	Const *big.Int // untyped integer constant
 	Nil   bool
+	// untyped conditional constant: Cond ? Const : ConstB
+	Cond   *Term
+	ConstB *big.Int
 }
 
 type Env struct {
@@ -102,6 +105,9 @@ func (env *Env) coerceConst(c CV, to types.Type) CV {
 			panic(cerr("cannot use constant as %s", to))
 		}
 	}
+	if c.Cond != nil {
+		return CV{V: Scalar{env.tb().Ite(c.Cond, env.tb().BVC(w, c.Const), env.tb().BVC(w, c.ConstB))}, T: to}
+	}
 	return CV{V: Scalar{env.tb().BVC(w, c.Const)}, T: to}
 }
 
@@ -138,6 +144,9 @@ func (env *Env) Eval(e *Expr) CV {
 	case "cond":
 		c := env.EvalBool(e.Args[0])
 		a, b := env.Eval(e.Args[1]), env.Eval(e.Args[2])
+		if a.Const != nil && b.Const != nil && a.Cond == nil && b.Cond == nil {
+			return CV{Const: a.Const, Cond: c, ConstB: b.Const}
+		}
 		a, b = env.unify(a, b)
 		return CV{V: r.e.iteVal(c, a.V, b.V), T: a.T}
 	case "forall", "exists":
@@ -229,8 +238,15 @@ func (env *Env) evalIdent(name string) CV {
 	switch name {
 	case "nil":
 		return CV{Nil: true}
+	case "MaxInt64":
+		return CV{Const: new(big.Int).SetUint64(1<<63 - 1)}
 	case "MaxUint64":
 		return CV{V: Scalar{tb.BVU(64, ^uint64(0))}, T: types.Typ[types.Uint64]}
+	}
+	if strings.HasPrefix(name, "ev") {
+		if k, ok := eventKinds[name[2:]]; ok {
+			return CV{Const: big.NewInt(int64(k))}
+		}
 	}
 	// source-level variable of the function under verification
 	if sv, ok := r.names[name]; ok {
@@ -332,6 +348,12 @@ func (env *Env) evalBinary(e *Expr) CV {
 			eq = tb.Not(eq)
 		}
 		return CV{V: Scalar{eq}, T: boolT}
+	}
+	if a.Cond != nil && (b.Const != nil || b.Nil) {
+		a = env.coerceConst(a, types.Typ[types.Int])
+	}
+	if b.Cond != nil && a.Const != nil {
+		b = env.coerceConst(b, types.Typ[types.Int])
 	}
 	if a.Const != nil && b.Const != nil {
 		x, y := a.Const, b.Const
@@ -692,6 +714,23 @@ func (env *Env) evalCall(e *Expr) CV {
 		a := r.scalar(arg(0).V)
 		types_ := map[int]types.Type{1: types.Typ[types.Uint8], 2: types.Typ[types.Uint16], 4: types.Typ[types.Uint32], 8: types.Typ[types.Uint64]}
 		return CV{V: Scalar{r.rawLoadBV(env.cur.M, a, n)}, T: types_[n]}
+	case "memint":
+		// memint(p, n): the n-byte little-endian two's-complement integer at raw address p, sign-extended to int64
+		a := r.scalar(arg(0).V)
+		nb := env.Eval(e.Args[1])
+		if nb.Const == nil {
+			panic(cerr("memint needs a constant size"))
+		}
+		v := r.rawLoadBV(env.cur.M, a, int(nb.Const.Int64()))
+		return CV{V: Scalar{tb.SExt(v, 64)}, T: types.Typ[types.Int64]}
+	case "memuint":
+		a := r.scalar(arg(0).V)
+		nb := env.Eval(e.Args[1])
+		if nb.Const == nil {
+			panic(cerr("memuint needs a constant size"))
+		}
+		v := r.rawLoadBV(env.cur.M, a, int(nb.Const.Int64()))
+		return CV{V: Scalar{tb.ZExt(v, 64)}, T: types.Typ[types.Uint64]}
 	case "memstr", "membytes":
 		// slice/string header stored at raw address
 		a := r.scalar(arg(0).V)
@@ -727,7 +766,11 @@ func (env *Env) evalCall(e *Expr) CV {
 		}
 		return CV{V: Scalar{tb.Forall([]*Term{b}, tb.Implies(tb.And(conds...), tb.Eq(tb.Select(env.cur.BH, b), tb.Select(ent.BH, b))))}, T: boolT}
 	case "newobj":
-		ent := r.rootEntry()
+		// not allocated in the old state (function entry when verifying a body; the pre-state at a call site)
+		ent := env.old
+		if ent == nil {
+			ent = r.rootEntry()
+		}
 		switch v := arg(0).V.(type) {
 		case SliceV:
 			return CV{V: Scalar{tb.Not(tb.Select(ent.BA, v.Base))}, T: boolT}
@@ -810,6 +853,11 @@ func (env *Env) evalCall(e *Expr) CV {
 		if sf.Uninterp {
 			var ts []*Term
 			for _, a := range args {
+				if sv, isSlice := a.V.(SliceV); isSlice {
+					// byte strings are identified by content, offset and length (not by the identity of the backing object)
+					ts = append(ts, r.sliceContent(env.cur, sv), sv.Off, sv.Len)
+					continue
+				}
 				var ls []leaf
 				leaves(a.V, "", &ls)
 				for _, l := range ls {
@@ -916,3 +964,25 @@ func (e *Engine) parseTypeName(from *types.Package, name string) types.Type {
 }
 
 var eventKinds = map[string]int{"V": 1, "B": 2, "W": 3, "CW": 4, "RV": 5, "RB": 6, "RN": 7, "CR": 8, "CS": 9, "OUT": 10, "TOK": 11, "CB": 12, "NEW": 13, "OMIT": 14}
+
+// useAxiom instantiates an axiom schema at the given argument expressions.
+func (env *Env) useAxiom(e *Expr) *Term {
+	r := env.r
+	ax, ok := r.e.specs.Axioms[e.Name]
+	if !ok {
+		panic(cerr("unknown axiom %s", e.Name))
+	}
+	if len(ax.Params) != len(e.Args) {
+		panic(cerr("axiom %s expects %d arguments", e.Name, len(ax.Params)))
+	}
+	ce := &Env{r: r, vars: map[string]CV{}, cur: env.cur, old: env.old, pkg: env.pkg}
+	for i, p := range ax.Params {
+		a := env.Eval(e.Args[i])
+		if pt, ok := specTypes[ax.PTypes[i]]; ok && a.Const != nil {
+			a = env.coerceConst(a, pt)
+		}
+		ce.vars[p] = a
+	}
+	r.e.usedAxioms[e.Name] = true
+	return ce.EvalBool(ax.Body)
+}
